@@ -218,7 +218,26 @@ func genEvalCase(r *rng, i int, mode string) (*evalCase, *hostEnv) {
 			}
 			continue
 		}
-		if mode == "expr" {
+		if mode == "parse" {
+			g.illP = 2
+			te := g.genToks(2 + r.intn(4))
+			ctx := r.intn(4)
+			if te.Damaged && ctx == 0 {
+				ctx = 2 // after an assignment a left-over call would be the next statement
+			}
+			switch ctx {
+			case 0:
+				// assignment: the right-hand side is `mathExpression | expression`
+				body = &RBlock{Stmts: []*RS{{Op: "assign", Sym: "=", Tgt: &RE{Op: "var", Sym: "x3"}, E: te}},
+					HasRet: true, Ret: &RE{Op: "var", Sym: "x3"}}
+			case 1:
+				// condition
+				body = &RBlock{Stmts: []*RS{{Op: "if", E: te, Body: &RBlock{HasRet: true, Ret: lit("int64", "1")}}},
+					HasRet: true, Ret: lit("int64", "2")}
+			default:
+				body = &RBlock{HasRet: true, Ret: te}
+			}
+		} else if mode == "expr" {
 			e, _ := g.anyExpr(2 + r.intn(4))
 			if r.chance(1, 5) {
 				e = atExpr(r)
